@@ -130,7 +130,8 @@ def replay_cex(pid, unit, cex):
     model = unit["model"]
     if model == "cuckoo":
         # a path that ends in Err after `kicks` evictions is only a real history in the build with that bound
-        feats = ("kicks2",) if cex["kicks"] == 2 else ()
+        overfull = (cex["op"] == "union" and cex["n"] + cex["n_b"] > cex["bs"] * cex["nb"]) or (cex["op"] == "insert" and cex["n"] == cex["bs"] * cex["nb"])
+        feats = ("kicks2",) if (cex["kicks"] == 2 and not overfull) else ()
         nat = native_exec(ck_replay_text(cex), path, feats)
         if nat.get("error"):
             return [], path, nat
@@ -196,9 +197,10 @@ def run_m_units(pid, tier, units, seed, ev, outcome):
         new, unrepro = [], []
         for t in sorted(set(failed)):
             cex = (r.get("cexs") or {}).get(t)
-            repro, path, nat = replay_cex(pid, dict(u, name=u["name"] + "-" + t.replace(":", "_").replace(" ", "_")[:40]), cex) if cex else ([], None, {"error": "no counterexample model"})
+            repro, path, nat = replay_cex(pid, dict(u, _tag=t, name=u["name"] + "-" + t.replace(":", "_").replace(" ", "_").replace("/", "_")[:40]), cex) if cex else ([], None, {"error": "no counterexample model"})
             rec["replays"][t] = {"path": path, "native": nat, "reproduced_tags": repro, "cex": cex}
-            if t not in repro and not (t.startswith("panic:") and nat.get("panic")):
+            is_panic_tag = t.startswith("panic:") or "never_panics" in t
+            if t not in repro and not (is_panic_tag and ("panic" in repro or nat.get("panic") or nat.get("result") == "panic")):
                 unrepro.append(t)
                 continue
             key = "%s::%s" % (u["name"], t)
